@@ -1,0 +1,83 @@
+//go:build verif
+
+// Machine-checked contracts for this package (comment-only; compiled only with -tags verif,
+// and even then contributes no code).  Read by /verif/govc; see /verif/DESIGN.md.
+
+package ip
+
+//@ -- plain prefix arithmetic over the address as one (v4) or two (v6) big-endian machine words
+//@ spec func v4u32(a V4Addr) uint32 = uint32(a[0]) << 24 | uint32(a[1]) << 16 | uint32(a[2]) << 8 | uint32(a[3])
+//@ spec func v6hi(a V6Addr) uint64 = uint64(a[0]) << 56 | uint64(a[1]) << 48 | uint64(a[2]) << 40 | uint64(a[3]) << 32
+//@      | uint64(a[4]) << 24 | uint64(a[5]) << 16 | uint64(a[6]) << 8 | uint64(a[7])
+//@ spec func v6lo(a V6Addr) uint64 = uint64(a[8]) << 56 | uint64(a[9]) << 48 | uint64(a[10]) << 40 | uint64(a[11]) << 32
+//@      | uint64(a[12]) << 24 | uint64(a[13]) << 16 | uint64(a[14]) << 8 | uint64(a[15])
+//@ -- network mask of a prefix length (p <= 32 resp. p <= 128)
+//@ spec func mask32(p uint8) uint32 = uint32(0xffffffff) << (32 - p)
+//@ spec func mask6hi(p uint8) uint64 = p >= 64 ? uint64(0xffffffffffffffff) : uint64(0xffffffffffffffff) << (64 - p)
+//@ spec func mask6lo(p uint8) uint64 = p <= 64 ? uint64(0) : uint64(0xffffffffffffffff) << (128 - p)
+//@ -- type invariant of a CIDR: prefix in range and no bit set beyond the prefix
+//@ spec func v4valid(c V4CIDR) bool = c.prefix <= 32 && v4u32(c.addr) & mask32(c.prefix) == v4u32(c.addr)
+//@ spec func v6valid(c V6CIDR) bool = c.prefix <= 128 && v6hi(c.addr) & mask6hi(c.prefix) == v6hi(c.addr) && v6lo(c.addr) & mask6lo(c.prefix) == v6lo(c.addr)
+//@ -- a and b agree on their first p bits
+//@ spec func v4agree(a V4Addr, b V4Addr, p uint8) bool = v4u32(a) & mask32(p) == v4u32(b) & mask32(p)
+//@ spec func v6agree(a V6Addr, b V6Addr, p uint8) bool = v6hi(a) & mask6hi(p) == v6hi(b) & mask6hi(p) && v6lo(a) & mask6lo(p) == v6lo(b) & mask6lo(p)
+//@ -- bit n of the address, counted from 1 at the most significant bit
+//@ spec func v4bit(a V4Addr, n uint) int = int((v4u32(a) >> (32 - n)) & 1)
+//@ spec func v6bit(a V6Addr, n uint) int = n <= 64 ? int((v6hi(a) >> (64 - n)) & 1) : int((v6lo(a) >> (128 - n)) & 1)
+
+//@ func (V4Addr).AsUint32
+//@   property C36
+//@   ensures res == v4u32(a)
+//@   assigns nothing
+
+//@ func (V6Addr).AsUint64Pair
+//@   property C36
+//@   ensures res0 == v6hi(a) && res1 == v6lo(a)
+//@   assigns nothing
+
+//@ func (V4Addr).NthBit
+//@   property C36
+//@   requires 1 <= n && n <= 32
+//@   ensures res == v4bit(a, n) && 0 <= res && res <= 1
+//@   assigns nothing
+
+//@ func (V6Addr).NthBit
+//@   property C36
+//@   requires 1 <= n && n <= 128
+//@   ensures res == v6bit(a, n) && 0 <= res && res <= 1
+//@   assigns nothing
+
+//@ -- containment is exactly "the address agrees with the network on the first prefix bits"
+//@ func (V4CIDR).ContainsV4
+//@   property C36
+//@   requires c.prefix <= 32
+//@   ensures res == v4agree(c.addr, addr, c.prefix)
+//@   assigns nothing
+
+//@ func (V6CIDR).ContainsV6
+//@   property C36
+//@   requires c.prefix <= 128
+//@   ensures res == v6agree(c.addr, addr, c.prefix)
+//@   assigns nothing
+
+//@ -- the common prefix is the longest prefix (no longer than either input) on which both agree;
+//@ -- its address is the shared bits with the host bits cleared
+//@ func V4CommonPrefix
+//@   property C36
+//@   requires a.prefix <= 32 && b.prefix <= 32
+//@   ensures res.prefix <= a.prefix && res.prefix <= b.prefix
+//@   ensures v4agree(a.addr, b.addr, res.prefix)
+//@   ensures res.prefix < a.prefix && res.prefix < b.prefix ==> !v4agree(a.addr, b.addr, res.prefix + 1)
+//@   ensures v4u32(res.addr) == v4u32(a.addr) & mask32(res.prefix)
+//@   ensures v4valid(res)
+//@   assigns nothing
+
+//@ func V6CommonPrefix
+//@   property C36
+//@   requires v6valid(a) && v6valid(b)
+//@   ensures res.prefix <= a.prefix && res.prefix <= b.prefix
+//@   ensures v6agree(a.addr, b.addr, res.prefix)
+//@   ensures res.prefix < a.prefix && res.prefix < b.prefix ==> !v6agree(a.addr, b.addr, res.prefix + 1)
+//@   ensures v6hi(res.addr) == v6hi(a.addr) & mask6hi(res.prefix) && v6lo(res.addr) == v6lo(a.addr) & mask6lo(res.prefix)
+//@   ensures v6valid(res)
+//@   assigns nothing
